@@ -81,6 +81,10 @@ def run(rep):
                                   ('sqlparse.lexer.Lexer.is_keyword', 'full')])
     table_obligations(rep)
     scanner_state_is_local(rep)
+    # "tokenizing never fails" includes the process's first calls made from several threads: every caller gets a completely
+    # initialised lexer (monitor obligations over get_default_instance, shared with C20)
+    from props.C20 import lock_obligations
+    lock_obligations(rep, 'C01')
     common.run_bounded(rep, 'C01', rep.tier, rep.seed)
     common.attach_replay(rep, 'C01', candidates)
     rep.assumptions += ['re.Pattern.match(text, pos) returns None or a match m with pos <= m.end() <= len(text), '
